@@ -2443,7 +2443,7 @@ class KmipEngine(object):
                             value.value
                         )
                     else:
-                        if value != attribute:
+                        if value.value != attribute:
                             add_object = False
                             break
 
